@@ -773,7 +773,7 @@ def check_e2e(skel, fronts=FRONTS):
                 results[f] = ('skipped:decompiler-restructured-the-query(C03)', esrc); continue
             exp = exp0 if ref[1] == esrc else value_of(ref[1], yv, zv)
             if exp != exp0 and not (exp[0] == 'v' and exp0[0] == 'v' and same_value(exp[1], exp0[1])):
-                check_e2e.decompiler_changed += 1                      # C03's business, not judged here
+                _changed.add(skel)                                     # C03's business, not judged here
             note = '' if ref[1] == esrc else ' (decompiled operand, rendered by ast.unparse: `%s`)' % ref[1]
             what = dict(x=xv, y=yv, z=zv)
             if exp[0] == 'raise':
@@ -789,7 +789,7 @@ def check_e2e(skel, fronts=FRONTS):
     out = [(f, ) + (results[f] or ('skipped:python-raises-for-every-assignment', esrc)) for f in fronts]
     _memo2[key] = out
     return out
-check_e2e.decompiler_changed = 0
+_changed = set()
 _ref_text = {}
 
 def failing2(skel, front):
@@ -844,8 +844,8 @@ def work_e2e(chunk):
                     cur = replace_at(cur, path, 'x')
             elif st == 'ok' and len(sub.samples) < 1 and not isinstance(skel, str) and any(not isinstance(c, str) for c in skel[1:]):
                 sub.sample(dict(oracle='e2e', front=f, expression=detail, verdict='bound parameter equals in-place Python value under %d assignments' % len(ASSIGN)))
-    sub.count('e2e:assignments_where_the_decompiled_operand_differs_from_source(C03, not judged)', check_e2e.decompiler_changed)
-    check_e2e.decompiler_changed = 0
+    sub.count('e2e:expressions_whose_decompiled_operand_differs_in_value_from_the_source(C03, not judged here)',
+              sum(1 for sk in chunk if sk in _changed))
     return sub.dump()
 
 # =================================================================================================
